@@ -746,6 +746,276 @@ pub mod unit {
         @*/
     }
 
+
+    // ---------------------------------------------------------------------------------------------
+    // History lemma over the contracts: every sequence of calls by anybody, with any clock readings
+    // (passage of time) and any configured delay at each call. `run` replays the transition contracts:
+    // an accepted call applies ac_next, a refused call changes nothing (this is what step_contract and
+    // the three vault-calling contracts state about the 5-tuple).
+    // ---------------------------------------------------------------------------------------------
+    pub struct Call {
+        pub op: Op,
+        pub obs: Obs,
+    }
+
+    pub open spec fn run(h: Seq<Call>) -> St
+        decreases h.len()
+    {
+        if h.len() == 0 {
+            init_state()   // AccessControllerV2Substate::new: `state: Default::default()`
+        } else {
+            let s = run(h.drop_last());
+            let c = h.last();
+            if ac_guard(s, c.obs, c.op) { ac_next(s, c.obs, c.op) } else { s }
+        }
+    }
+
+    /// call number j of the history was `op` and was accepted
+    pub open spec fn accepted_at(h: Seq<Call>, j: int, op: Op) -> bool {
+        0 <= j < h.len() && h[j].op == op && ac_guard(run(h.take(j)), h[j].obs, h[j].op)
+    }
+    /// a timed recovery initiated under observation `o` may be confirmed after `t`
+    pub open spec fn timer_set(o: Obs, t: Instant) -> bool {
+        o.delay matches Some(d) && add_minutes_spec(o.now, d as int) == Some(t)
+    }
+
+    /// Every pending attempt in the 5-tuple was put there by an accepted Initiate* call of this history.
+    pub open spec fn pending_justified(h: Seq<Call>) -> bool {
+        let s = run(h);
+        slot1_ok(h, s) && slot2_ok(h, s) && slot3_ok(h, s) && slot4_ok(h, s)
+    }
+
+    pub proof fn lemma_extend(h: Seq<Call>, j: int, op: Op)
+        requires h.len() > 0, accepted_at(h.drop_last(), j, op)
+        ensures accepted_at(h, j, op), h[j] == h.drop_last()[j]
+    {
+        assert(h.take(j) =~= h.drop_last().take(j));
+    }
+    pub proof fn lemma_last(h: Seq<Call>)
+        requires h.len() > 0, ac_guard(run(h.drop_last()), h.last().obs, h.last().op)
+        ensures accepted_at(h, h.len() - 1, h.last().op)
+    {
+        assert(h.take(h.len() - 1) =~= h.drop_last());
+    }
+
+    pub open spec fn slot1_ok(h: Seq<Call>, s: St) -> bool {
+        match s.1 {
+            PrimaryRoleRecoveryAttemptState::RecoveryAttempt(p) =>
+                exists|j: int| accepted_at(h, j, Op::InitiateRecoveryAsPrimary(p)),
+            PrimaryRoleRecoveryAttemptState::NoRecoveryAttempt => true,
+        }
+    }
+    pub open spec fn slot2_ok(h: Seq<Call>, s: St) -> bool {
+        s.2 == PrimaryRoleBadgeWithdrawAttemptState::BadgeWithdrawAttempt ==>
+            exists|j: int| accepted_at(h, j, Op::InitiateBadgeWithdrawAsPrimary)
+    }
+    pub open spec fn slot3_ok(h: Seq<Call>, s: St) -> bool {
+        match s.3 {
+            RecoveryRoleRecoveryAttemptState::NoRecoveryAttempt => true,
+            RecoveryRoleRecoveryAttemptState::RecoveryAttempt(RecoveryRoleRecoveryState::UntimedRecovery(p)) =>
+                exists|j: int| accepted_at(h, j, Op::InitiateRecoveryAsRecovery(p)),
+            RecoveryRoleRecoveryAttemptState::RecoveryAttempt(RecoveryRoleRecoveryState::TimedRecovery { proposal, timed_recovery_allowed_after }) =>
+                exists|j: int| accepted_at(h, j, Op::InitiateRecoveryAsRecovery(proposal)) && timer_set(h[j].obs, timed_recovery_allowed_after),
+        }
+    }
+    pub open spec fn slot4_ok(h: Seq<Call>, s: St) -> bool {
+        s.4 == RecoveryRoleBadgeWithdrawAttemptState::BadgeWithdrawAttempt ==>
+            exists|j: int| accepted_at(h, j, Op::InitiateBadgeWithdrawAsRecovery)
+    }
+
+    /// a slot that a call leaves alone stays justified in the extended history
+    pub proof fn lemma_slots_carry_over(h: Seq<Call>, s: St)
+        requires h.len() > 0
+        ensures
+            slot1_ok(h.drop_last(), s) ==> slot1_ok(h, s),
+            slot2_ok(h.drop_last(), s) ==> slot2_ok(h, s),
+            slot3_ok(h.drop_last(), s) ==> slot3_ok(h, s),
+            slot4_ok(h.drop_last(), s) ==> slot4_ok(h, s),
+    {
+        let h0 = h.drop_last();
+        if slot1_ok(h0, s) {
+            if let PrimaryRoleRecoveryAttemptState::RecoveryAttempt(p) = s.1 {
+                let j = choose|j: int| accepted_at(h0, j, Op::InitiateRecoveryAsPrimary(p));
+                lemma_extend(h, j, Op::InitiateRecoveryAsPrimary(p));
+            }
+        }
+        if slot2_ok(h0, s) && s.2 == PrimaryRoleBadgeWithdrawAttemptState::BadgeWithdrawAttempt {
+            let j = choose|j: int| accepted_at(h0, j, Op::InitiateBadgeWithdrawAsPrimary);
+            lemma_extend(h, j, Op::InitiateBadgeWithdrawAsPrimary);
+        }
+        if slot4_ok(h0, s) && s.4 == RecoveryRoleBadgeWithdrawAttemptState::BadgeWithdrawAttempt {
+            let j = choose|j: int| accepted_at(h0, j, Op::InitiateBadgeWithdrawAsRecovery);
+            lemma_extend(h, j, Op::InitiateBadgeWithdrawAsRecovery);
+        }
+        if slot3_ok(h0, s) {
+            match s.3 {
+                RecoveryRoleRecoveryAttemptState::RecoveryAttempt(RecoveryRoleRecoveryState::TimedRecovery { proposal, timed_recovery_allowed_after }) => {
+                    let j = choose|j: int| accepted_at(h0, j, Op::InitiateRecoveryAsRecovery(proposal)) && timer_set(h0[j].obs, timed_recovery_allowed_after);
+                    lemma_extend(h, j, Op::InitiateRecoveryAsRecovery(proposal));
+                    assert(accepted_at(h, j, Op::InitiateRecoveryAsRecovery(proposal)) && timer_set(h[j].obs, timed_recovery_allowed_after));
+                },
+                RecoveryRoleRecoveryAttemptState::RecoveryAttempt(RecoveryRoleRecoveryState::UntimedRecovery(p)) => {
+                    let j = choose|j: int| accepted_at(h0, j, Op::InitiateRecoveryAsRecovery(p));
+                    lemma_extend(h, j, Op::InitiateRecoveryAsRecovery(p));
+                },
+                _ => {},
+            }
+        }
+    }
+
+    /// How one accepted call can change each slot (read off ac_next): it leaves the slot alone, clears
+    /// it, or is the Initiate* call of that slot (StopTimedRecovery keeps the recovery role's proposal).
+    pub proof fn lemma_step_slots(s0: St, o: Obs, op: Op)
+        requires ac_guard(s0, o, op)
+        ensures ({
+            let s = ac_next(s0, o, op);
+            &&& s.1 == s0.1 || s.1 == PrimaryRoleRecoveryAttemptState::NoRecoveryAttempt
+                    || (op matches Op::InitiateRecoveryAsPrimary(p) && s.1 == PrimaryRoleRecoveryAttemptState::RecoveryAttempt(p))
+            &&& s.2 == s0.2 || s.2 == PrimaryRoleBadgeWithdrawAttemptState::NoBadgeWithdrawAttempt
+                    || op == Op::InitiateBadgeWithdrawAsPrimary
+            &&& s.4 == s0.4 || s.4 == RecoveryRoleBadgeWithdrawAttemptState::NoBadgeWithdrawAttempt
+                    || op == Op::InitiateBadgeWithdrawAsRecovery
+            &&& s.3 == s0.3 || s.3 == RecoveryRoleRecoveryAttemptState::NoRecoveryAttempt
+                    || (op matches Op::InitiateRecoveryAsRecovery(p) && o.delay is None
+                            && s.3 == RecoveryRoleRecoveryAttemptState::RecoveryAttempt(RecoveryRoleRecoveryState::UntimedRecovery(p)))
+                    || (op matches Op::InitiateRecoveryAsRecovery(p) && o.delay matches Some(d) && add_minutes_spec(o.now, d as int) matches Some(t)
+                            && s.3 == RecoveryRoleRecoveryAttemptState::RecoveryAttempt(RecoveryRoleRecoveryState::TimedRecovery { proposal: p, timed_recovery_allowed_after: t }))
+                    || (op matches Op::StopTimedRecovery(p) && timed_recovery(s0.3) matches Some(pt) && pt.0 == p
+                            && s.3 == RecoveryRoleRecoveryAttemptState::RecoveryAttempt(RecoveryRoleRecoveryState::UntimedRecovery(p)))
+        }),
+    {
+    }
+
+    pub proof fn lemma_pending_justified(h: Seq<Call>)
+        ensures pending_justified(h)
+        decreases h.len()
+    {
+        if h.len() > 0 {
+            let h0 = h.drop_last();
+            let c = h.last();
+            let s0 = run(h0);
+            let s = run(h);
+            lemma_pending_justified(h0);
+            lemma_slots_carry_over(h, s0);
+            if ac_guard(s0, c.obs, c.op) {
+                let k = h.len() - 1;
+                lemma_last(h);
+                assert(h[k].obs == c.obs);
+                assert(s == ac_next(s0, c.obs, c.op));
+                lemma_step_slots(s0, c.obs, c.op);
+                lemma_slots_carry_over(h, s);
+                // slot 1
+                assert(slot1_ok(h, s)) by {
+                    if s.1 == s0.1 {
+                        assert(slot1_ok(h, s0));
+                    } else if s.1 != PrimaryRoleRecoveryAttemptState::NoRecoveryAttempt {
+                        assert(accepted_at(h, k, c.op));
+                    }
+                }
+                assert(slot2_ok(h, s)) by {
+                    if s.2 == s0.2 {
+                        assert(slot2_ok(h, s0));
+                    } else if s.2 != PrimaryRoleBadgeWithdrawAttemptState::NoBadgeWithdrawAttempt {
+                        assert(accepted_at(h, k, Op::InitiateBadgeWithdrawAsPrimary));
+                    }
+                }
+                assert(slot4_ok(h, s)) by {
+                    if s.4 == s0.4 {
+                        assert(slot4_ok(h, s0));
+                    } else if s.4 != RecoveryRoleBadgeWithdrawAttemptState::NoBadgeWithdrawAttempt {
+                        assert(accepted_at(h, k, Op::InitiateBadgeWithdrawAsRecovery));
+                    }
+                }
+                assert(slot3_ok(h, s)) by {
+                    if s.3 == s0.3 {
+                        assert(slot3_ok(h, s0));
+                    } else if s.3 != RecoveryRoleRecoveryAttemptState::NoRecoveryAttempt {
+                        match c.op {
+                            Op::InitiateRecoveryAsRecovery(p) => {
+                                assert(accepted_at(h, k, Op::InitiateRecoveryAsRecovery(p)));
+                                if c.obs.delay is Some {
+                                    let t = add_minutes_spec(c.obs.now, c.obs.delay.unwrap() as int).unwrap();
+                                    assert(accepted_at(h, k, Op::InitiateRecoveryAsRecovery(p)) && timer_set(h[k].obs, t));
+                                }
+                            },
+                            Op::StopTimedRecovery(p) => {
+                                // the proposal stays the recovery role's own proposal, only the timer is dropped
+                                let t = timed_recovery(s0.3).unwrap().1;
+                                let j = choose|j: int| accepted_at(h0, j, Op::InitiateRecoveryAsRecovery(p)) && timer_set(h0[j].obs, t);
+                                lemma_extend(h, j, Op::InitiateRecoveryAsRecovery(p));
+                            },
+                            _ => {},
+                        }
+                    }
+                }
+            }
+        }
+    }
+
+    /// The three roles and which of them may invoke which method.
+    /// ASSUMED DATA (not read by the proof): transcribed from v2/package.rs, `method_auth: roles_template!`.
+    /*@item radix-engine-interface/src/blueprints/access_controller/data.rs :: enum Role
+    @derive Copy, Clone, PartialEq, Eq
+    @*/
+    pub open spec fn may_call(r: Role, op: Op) -> bool {
+        match op {
+            Op::TimedConfirmRecovery(_) => true,    // MethodAccessibility::Public
+            Op::CreateProof => r == Role::Primary,
+            Op::InitiateRecoveryAsPrimary(_) | Op::CancelPrimaryRecovery | Op::InitiateBadgeWithdrawAsPrimary | Op::CancelPrimaryBadgeWithdraw => r == Role::Primary,
+            Op::InitiateRecoveryAsRecovery(_) | Op::CancelRecoveryRecovery | Op::InitiateBadgeWithdrawAsRecovery | Op::CancelRecoveryBadgeWithdraw => r == Role::Recovery,
+            Op::LockPrimary | Op::UnlockPrimary => r == Role::Recovery,
+            Op::QuickConfirmPrimaryRecovery(_) | Op::QuickConfirmPrimaryBadgeWithdraw => r == Role::Recovery || r == Role::Confirmation,
+            Op::QuickConfirmRecoveryRecovery(_) | Op::QuickConfirmRecoveryBadgeWithdraw => r == Role::Primary || r == Role::Confirmation,
+            Op::StopTimedRecovery(_) => true,       // all three roles
+        }
+    }
+
+    /// C40 over histories. Whenever a call that replaces the rules (a recovery confirmation returning
+    /// proposal p) or releases the controlled asset (a badge-withdraw confirmation) is accepted after
+    /// history h, then
+    ///  * quick confirmations: an earlier accepted call of h initiated exactly that change (same p), the
+    ///    initiating method belongs to one role only and no role allowed to call the confirming method is
+    ///    that role (two different roles);
+    ///  * timed confirmation: an earlier accepted InitiateRecoveryAsRecovery(p) of h (recovery role only)
+    ///    set the timer to `its clock + the delay configured then`, and the confirming call's clock has
+    ///    reached that instant.
+    pub proof fn theorem_two_roles_or_elapsed_timer(h: Seq<Call>, c: Call)
+        requires ac_guard(run(h), c.obs, c.op)
+        ensures
+            c.op matches Op::QuickConfirmPrimaryRecovery(p) ==> {
+                &&& exists|j: int| accepted_at(h, j, Op::InitiateRecoveryAsPrimary(p))
+                &&& forall|a: Role, b: Role| may_call(a, Op::InitiateRecoveryAsPrimary(p)) && may_call(b, c.op) ==> a == Role::Primary && b != a
+            },
+            c.op matches Op::QuickConfirmRecoveryRecovery(p) ==> {
+                &&& exists|j: int| accepted_at(h, j, Op::InitiateRecoveryAsRecovery(p))
+                &&& forall|a: Role, b: Role| may_call(a, Op::InitiateRecoveryAsRecovery(p)) && may_call(b, c.op) ==> a == Role::Recovery && b != a
+            },
+            c.op matches Op::TimedConfirmRecovery(p) ==> {
+                &&& exists|j: int, t: Instant| accepted_at(h, j, Op::InitiateRecoveryAsRecovery(p))
+                        && timer_set(h[j].obs, t) && time_reached(c.obs.now, t) && c.obs.time_err is None
+                &&& forall|a: Role| may_call(a, Op::InitiateRecoveryAsRecovery(p)) ==> a == Role::Recovery
+            },
+            c.op == Op::QuickConfirmPrimaryBadgeWithdraw ==> {
+                &&& exists|j: int| accepted_at(h, j, Op::InitiateBadgeWithdrawAsPrimary)
+                &&& forall|a: Role, b: Role| may_call(a, Op::InitiateBadgeWithdrawAsPrimary) && may_call(b, c.op) ==> a == Role::Primary && b != a
+            },
+            c.op == Op::QuickConfirmRecoveryBadgeWithdraw ==> {
+                &&& exists|j: int| accepted_at(h, j, Op::InitiateBadgeWithdrawAsRecovery)
+                &&& forall|a: Role, b: Role| may_call(a, Op::InitiateBadgeWithdrawAsRecovery) && may_call(b, c.op) ==> a == Role::Recovery && b != a
+            },
+            // a proof of the controlled asset is only created while the primary role is unlocked
+            c.op == Op::CreateProof ==> run(h).0 == PrimaryRoleLockingState::Unlocked,
+    {
+        lemma_pending_justified(h);
+        match c.op {
+            Op::TimedConfirmRecovery(p) => {
+                let t = timed_recovery(run(h).3).unwrap().1;
+                let j = choose|j: int| accepted_at(h, j, Op::InitiateRecoveryAsRecovery(p)) && timer_set(h[j].obs, t);
+                assert(accepted_at(h, j, Op::InitiateRecoveryAsRecovery(p)) && timer_set(h[j].obs, t) && time_reached(c.obs.now, t));
+            },
+            _ => {},
+        }
+    }
 }
 } // verus!
 fn main() {}
